@@ -14,11 +14,16 @@ float data); with a vacancy the final configuration lives in the sampler whose v
 META = dict(
     level="proof",
     text=("Theorems (all translation structures obeying the three laws of Supercell.index, all clusters/values/KRA/TS clusters, all "
-          "occupations): Q_f - Q_r = E(final) - E(initial) for the jump evaluators without and with vacancy, given that no cluster "
-          "is wrapped onto itself by the supercell (decidable; decided inside Coq for every system used). Tie: the Gallina model "
+          "occupations): Q_f - Q_r = E(final) - E(initial) for the jump evaluator without vacancy (KRA + TS clusters, full) and with "
+          "a vacancy (KRA: full; with TS clusters: under the premise that the TS expansion is symmetric under reversal -- partial), "
+          "given that no cluster is wrapped onto itself by the supercell (decidable; decided inside Coq for every system used; the "
+          "finite check implies the condition for all translations). Tie: the Gallina model "
           "reproduces the implementation's energies and barriers exactly on the implementation's raw geometry; detailed balance, "
           "reverse transition and opposite displacement are evaluated on the implementation exhaustively on small supercells."),
-    note=("Domain: supercells on which every cluster (incl. TS clusters with their end points, vacancy clusters with the vacancy) "
+    note=("Partial: with a vacancy AND TS clusters the equality of the forward and reverse TS terms is a premise "
+          "(C34_detailed_balance_vacancy_partial); makeTSclusters builds both directions with one value, the derivation from that "
+          "closure is not formalised; the model correspondence and the exhaustive evaluation cover that case on the implementation. "
+          "Domain: supercells on which every cluster (incl. TS clusters with their end points, vacancy clusters with the vacancy) "
           "occupies distinct sites; on supercells that wrap a cluster onto itself the implementation does violate detailed balance "
           "(counted as out-of-domain, see design note). Trusted: lattice displacement dR of a jump taken from the implementation's "
           "cart2pos; the three translation laws of Supercell.index (checked on all vectors used); that the reverse jump is in the "
@@ -291,7 +296,10 @@ def run(ck):
                     occ2s.append(o2)
                 its.append((geom_term(S, sup2), sys_term(S, sup2, MC2), [occase_term(MC2, o) for o in occ2s]))
         except AssertionError as e:
-            raise RuntimeError("harness: %s [%s]" % (e, S.label))
+            # integer KRA/TS values and even cluster values must give integer energies and barriers
+            ck.violation("the implementation reports a value that cannot come from the given integer data: %s [%s]" % (e, S.label),
+                         dict(sysinfo(S)), key="c34-model-correspondence")
+            its = []
         for it in its:
             items.append(it); meta.append((S, viol, len(it[2]), exh))
     try:
